@@ -34,6 +34,7 @@ pub fn dispatch(op: &str, t: &[&str]) -> Option<Out> {
     match op {
         "dec" => return Some(dec(t)),
         "json" => return Some(json_rt(t)),
+        "jsonapi" => return Some(json_api(t)),
         "jsondec" => return Some(json_dec(t)),
         "blindfactor_random" => {
             let b = BlindFactor::random();
@@ -356,6 +357,40 @@ fn dec(t: &[&str]) -> Out {
             ok1([x, y].concat())
         }
         _ => panic!("dec kind"),
+    }
+}
+
+// arbitrary JSON text -> the scheme-generic API type (an enum over the schemes) -> its verification entry point, under a fixed key and
+// with every optional argument absent: OK / ERR (a panic is caught by the caller)
+fn json_api(t: &[&str]) -> Out {
+    type S = BBSplus<Bls12381Sha256>;
+    let s = match String::from_utf8(bytes(t[1])) {
+        Ok(s) => s,
+        Err(_) => return Out::Err,
+    };
+    let kp = tr!(KeyPair::<S>::generate(&[7u8; 32], None, None));
+    let pk = kp.public_key();
+    match t[0] {
+        "sig" => {
+            let v: Signature<S> = tr!(serde_json::from_str(&s));
+            tr!(v.verify(pk, None, None));
+            Out::Ok(vec![])
+        }
+        "proof" => {
+            let v: PoKSignature<S> = tr!(serde_json::from_str(&s));
+            tr!(v.proof_verify(pk, None, None, None, None));
+            Out::Ok(vec![])
+        }
+        "blindsig" => {
+            let v: BlindSignature<S> = tr!(serde_json::from_str(&s));
+            tr!(v.verify_blind_sign(pk, None, None, None, None));
+            Out::Ok(vec![])
+        }
+        "commit" => {
+            let v: Commitment<S> = tr!(serde_json::from_str(&s));
+            ok1(v.to_bytes())
+        }
+        _ => panic!("jsonapi kind"),
     }
 }
 
